@@ -239,6 +239,18 @@ class Program:
                         out.append(f)
         return out
 
+    def by_qual_suffix(self, name):
+        """functions whose qualified name is `name` or ends in `::name` (resolution of a dependent call by its spelling)"""
+        idx = getattr(self, "_suffix_idx", None)
+        if idx is None:
+            idx = defaultdict(list)
+            for q, fs in self.by_qual.items():
+                parts = q.split("::")
+                for i in range(len(parts)):
+                    idx["::".join(parts[i:])].extend(fs)
+            self._suffix_idx = idx
+        return idx.get(name, [])
+
     def cls(self, name):
         return self.classes.get(name)
 
